@@ -178,6 +178,21 @@ theorem finish_classify_ne {π β} {pl : Plug π β} {head : Nat} {st : St β} {
 def Hist.Topo {π} (h : Hist π) : Prop :=
   ∀ (c : Nat) (cm : Commit π), h.commits[c]? = some cm → ∀ p ∈ cm.parents, p < c
 
+/-- executable test of `Hist.Topo` -/
+def Hist.topoB {π} (h : Hist π) : Bool :=
+  (List.range h.commits.length).all fun c =>
+    match h.commits[c]? with
+    | some cm => cm.parents.all (fun p => decide (p < c))
+    | none => true
+
+theorem Hist.topo_of_topoB {π} (h : Hist π) (hb : h.topoB = true) : h.Topo := by
+  intro c cm hcm p hp
+  have hc : c < h.commits.length := by
+    rcases List.getElem?_eq_some_iff.mp hcm with ⟨hi, _⟩; exact hi
+  have := (List.all_eq_true.mp hb) c (List.mem_range.mpr hc)
+  rw [hcm] at this
+  simpa using (List.all_eq_true.mp this) p hp
+
 theorem visit_frame {π β} {h : Hist π} (hT : h.Topo) (pl : Plug π β) (head : Nat) :
     ∀ (fuel : Nat) (s : St β) (acc : List Nat) (c : Nat) (s' : St β) (acc' : List Nat),
       visit h pl head fuel (s, acc) c = .ok (s', acc') → ∀ x, c < x → classify s'.rp x = classify s.rp x := by
@@ -264,7 +279,6 @@ theorem bp_frame {β} (rp : Repo β) (hT : RcTopo rp.rcs) (anc : List (Nat × Li
               exact ih f a f' hstep x (by omega))
             rc.parents.reverse [] fs fs1 rfl
             (by intro a ha; exact hT r rc hrc a (List.mem_reverse.mp ha)) hfold
-          simp only at h1
           split at hb
           · cases hb
           · cases hb
@@ -273,44 +287,47 @@ theorem bp_frame {β} (rp : Repo β) (hT : RcTopo rp.rcs) (anc : List (Nat × Li
 
 section BpInd
 variable {β : Type} (rp : Repo β) (anc : List (Nat × List Nat))
-variable (P : FS → Prop) (R : FS → FS → Prop) (C : FS → Nat → Prop)
+variable (P : FS → Prop) (R : FS → FS → Prop) (C : FS → Nat → Prop) (V : Nat → Prop)
 
 structure BpHyps : Prop where
+  Vstep : ∀ {r rc p}, V r → rp.rcs[r]? = some rc → p ∈ rc.parents → V p
   Rrefl : ∀ s, R s s
   Rtrans : ∀ {a b c}, R a b → R b c → R a c
   Cmono : ∀ {s s' p}, R s s' → C s p → C s' p
   Cstop : ∀ {s r}, P s → bpStop rp s r = true → C s r
-  Hadd : ∀ {s0 s r rc prs}, P s0 → bpStop rp s0 r = false → bpStop rp s r = false → rp.rcs[r]? = some rc →
+  Hadd : ∀ {s0 s r rc prs}, P s0 → V r → bpStop rp s0 r = false → bpStop rp s r = false → rp.rcs[r]? = some rc →
       R s0 s → P s → (∀ p ∈ rc.parents, C s p) → prsOf rp anc s.bparents rc.parents = .ok prs →
       P (s.add r prs rc.explicit) ∧ R s (s.add r prs rc.explicit) ∧ C (s.add r prs rc.explicit) r
 
-variable {rp anc P R C}
+variable {rp anc P R C V}
 
 theorem bp_fold_ind (f : FS → Nat → Except Err FS)
-    (H : BpHyps rp anc P R C)
-    (IH : ∀ (s : FS) (r : Nat) (s' : FS), P s → f s r = .ok s' → P s' ∧ R s s' ∧ C s' r) :
-    ∀ (l : List Nat) (s s' : FS), P s → l.foldlM f s = .ok s' → P s' ∧ R s s' ∧ ∀ p ∈ l, C s' p := by
+    (H : BpHyps rp anc P R C V)
+    (IH : ∀ (s : FS) (r : Nat) (s' : FS), P s → V r → f s r = .ok s' → P s' ∧ R s s' ∧ C s' r) :
+    ∀ (l : List Nat) (s s' : FS), P s → (∀ p ∈ l, V p) → l.foldlM f s = .ok s' →
+      P s' ∧ R s s' ∧ ∀ p ∈ l, C s' p := by
   intro l
   induction l with
-  | nil => intro s s' hP h; cases h; exact ⟨hP, H.Rrefl _, by simp⟩
+  | nil => intro s s' hP _ h; cases h; exact ⟨hP, H.Rrefl _, by simp⟩
   | cons a l ih =>
-    intro s s' hP h
+    intro s s' hP hV h
     obtain ⟨s1, h1, h2⟩ := foldlM_ok_cons f s s' a l h
-    obtain ⟨hP1, hR1, hC1⟩ := IH s a s1 hP h1
-    obtain ⟨hP2, hR2, hC2⟩ := ih s1 s' hP1 h2
+    obtain ⟨hP1, hR1, hC1⟩ := IH s a s1 hP (hV a (by simp)) h1
+    obtain ⟨hP2, hR2, hC2⟩ := ih s1 s' hP1 (fun p hp => hV p (by simp [hp])) h2
     refine ⟨hP2, H.Rtrans hR1 hR2, ?_⟩
     intro p hp
     rcases List.mem_cons.mp hp with hp | hp
     · subst hp; exact H.Cmono hR2 hC1
     · exact hC2 p hp
 
-theorem bp_ind (hT : RcTopo rp.rcs) (H : BpHyps rp anc P R C) :
-    ∀ (fuel : Nat) (s : FS) (r : Nat) (s' : FS), P s → bp rp anc fuel s r = .ok s' → P s' ∧ R s s' ∧ C s' r := by
+theorem bp_ind (hT : RcTopo rp.rcs) (H : BpHyps rp anc P R C V) :
+    ∀ (fuel : Nat) (s : FS) (r : Nat) (s' : FS), P s → V r → bp rp anc fuel s r = .ok s' →
+      P s' ∧ R s s' ∧ C s' r := by
   intro fuel
   induction fuel with
-  | zero => intro s r s' _ hb; simp [bp] at hb
+  | zero => intro s r s' _ _ hb; simp [bp] at hb
   | succ fuel ih =>
-    intro s r s' hP hb
+    intro s r s' hP hV hb
     rw [bp_succ] at hb
     split at hb
     · rename_i hstop
@@ -324,7 +341,8 @@ theorem bp_ind (hT : RcTopo rp.rcs) (H : BpHyps rp anc P R C) :
         split at hb
         · cases hb
         · rename_i s1 hfold
-          obtain ⟨hP1, hR1, hC1⟩ := bp_fold_ind (bp rp anc fuel) H ih rc.parents.reverse s s1 hP hfold
+          obtain ⟨hP1, hR1, hC1⟩ := bp_fold_ind (bp rp anc fuel) H ih rc.parents.reverse s s1 hP
+            (fun p hp => H.Vstep hV hrc (List.mem_reverse.mp hp)) hfold
           have hstop1 : bpStop rp s1 r = false := by
             have h1 := foldlM_ind (bp rp anc fuel)
               (fun _ (f : FS) => f.bparents.lookup r = s.bparents.lookup r) (fun p => p < r)
@@ -334,14 +352,13 @@ theorem bp_ind (hT : RcTopo rp.rcs) (H : BpHyps rp anc P R C) :
                 exact bp_frame rp hT anc fuel f a f' hstep r hG)
               rc.parents.reverse [] s s1 rfl
               (by intro a ha; exact hT r rc hrc a (List.mem_reverse.mp ha)) hfold
-            simp only at h1
             simp only [bpStop] at hstop ⊢
             rw [h1]; exact hstop
           split at hb
           · cases hb
           · rename_i prs hprs
             cases hb
-            obtain ⟨hP2, hR2, hC2⟩ := H.Hadd hP hstop hstop1 hrc hR1 hP1
+            obtain ⟨hP2, hR2, hC2⟩ := H.Hadd hP hV hstop hstop1 hrc hR1 hP1
               (fun p hp => hC1 p (List.mem_reverse.mpr hp)) hprs
             exact ⟨hP2, H.Rtrans hR1 hR2, hC2⟩
 
